@@ -18,6 +18,7 @@ import (
 	"os"
 	"reflect"
 	"regexp"
+	"runtime"
 	"strconv"
 	"sync"
 	"time"
@@ -484,3 +485,72 @@ func cleanupListeners() {
 		delete(listeners, ep)
 	}
 }
+
+// RWMutex stands in for sync.RWMutex in the *native* confirmation of a "recursive read lock" report: the replay
+// builds the package under test with sync.RWMutex textually replaced by this type. It behaves like sync.RWMutex and
+// records a failure when a goroutine takes a read lock it already holds (prohibited by sync.RWMutex: it deadlocks as
+// soon as a writer asks for the lock in between). The executor never sees this type.
+type RWMutex struct {
+	inner   sync.RWMutex
+	rmu     sync.Mutex
+	readers map[int64]int
+}
+
+func goid() int64 {
+	var buf [64]byte
+	n := runtime.Stack(buf[:], false)
+	f := bytes.Fields(buf[:n])
+	if len(f) < 2 {
+		return -1
+	}
+	id, _ := strconv.ParseInt(string(f[1]), 10, 64)
+	return id
+}
+
+func (m *RWMutex) RLock() {
+	g := goid()
+	m.rmu.Lock()
+	if m.readers == nil {
+		m.readers = map[int64]int{}
+	}
+	again := m.readers[g] > 0
+	m.readers[g]++
+	m.rmu.Unlock()
+	if again {
+		Assert(false, "recursive read lock: goroutine re-acquires a sync.RWMutex it already holds for reading")
+	}
+	m.inner.RLock()
+}
+
+func (m *RWMutex) RUnlock() {
+	g := goid()
+	m.rmu.Lock()
+	if m.readers[g] > 0 {
+		m.readers[g]--
+	}
+	m.rmu.Unlock()
+	m.inner.RUnlock()
+}
+
+func (m *RWMutex) Lock()         { m.inner.Lock() }
+func (m *RWMutex) Unlock()       { m.inner.Unlock() }
+func (m *RWMutex) TryLock() bool { return m.inner.TryLock() }
+func (m *RWMutex) TryRLock() bool {
+	if !m.inner.TryRLock() {
+		return false
+	}
+	g := goid()
+	m.rmu.Lock()
+	if m.readers == nil {
+		m.readers = map[int64]int{}
+	}
+	m.readers[g]++
+	m.rmu.Unlock()
+	return true
+}
+func (m *RWMutex) RLocker() sync.Locker { return (*rlocker)(m) }
+
+type rlocker RWMutex
+
+func (r *rlocker) Lock()   { (*RWMutex)(r).RLock() }
+func (r *rlocker) Unlock() { (*RWMutex)(r).RUnlock() }
